@@ -143,6 +143,29 @@ def setJailed (s : St) (key : Nat) (b : Bool) : St :=
   | none => s
   | some op => if s.hasInfo op then { s with jailed := upd s.jailed op b } else s
 
+/-- x/dogfood/keeper/impl_sdk.go: SlashWithInfractionReason (the staking interface the SDK's
+slashing / evidence modules call with a *consensus address*): the operator that is handed to
+x/operator's SlashWithInfractionReason. The only early return before that call is `!found` of
+`GetOperatorAddressForChainIDAndConsAddr` — whether the key is (still) in the dogfood validator
+store is NOT looked at, so a replaced / removed key stays slashable while the reverse index keeps it. -/
+def slashTarget (s : St) (key : Nat) : Option Nat := s.rev key
+
+/-- impl_sdk.go: Jail / Unjail → x/operator slash.go: SetJailedState: the operator whose `Jailed`
+flag is written (`!found` on the same reverse lookup returns; HandleOptedInfo fails without a
+record and the error is only logged) -/
+def jailTarget (s : St) (key : Nat) : Option Nat :=
+  match s.rev key with
+  | none => none
+  | some op => if s.hasInfo op then some op else none
+
+/-- x/operator slash.go: SlashWithInfractionReason → Slash → SlashAssets: the operators that end up
+with a slash record when evidence for `key` is handled; `staked op` = the operator's
+StakingAndWaitUnbonding value is positive (otherwise SlashAssets refuses: nothing to slash) -/
+def slashedBy (s : St) (key : Nat) (staked : Nat → Bool) : List Nat :=
+  match slashTarget s key with
+  | some op => if staked op then [op] else []
+  | none => []
+
 /-- impl_delegation_hooks.go: AfterUndelegationStarted (after "fix: undelegation in the block
 that finishes an opt-out"). Result: (outcome, state). -/
 def undelegationStarted (s : St) (op rec : Nat) : Out × St :=
